@@ -3,6 +3,7 @@ package bitswap
 import (
 	"context"
 	"crypto/sha256"
+	"errors"
 	"fmt"
 	"sync"
 
@@ -98,6 +99,7 @@ func fetch(
 		return fmt.Errorf("requesting Bitswap blocks: %w", err)
 	}
 
+	var duplicatesErr error
 	for bitswapBlk := range blkCh { // GetBlocks closes blkCh on ctx cancellation
 		// NOTE: notification for duplicates is on purpose and to cover a flaky case
 		// It's harmless in practice to do additional notifications in case of duplicates
@@ -113,10 +115,10 @@ func fetch(
 			unmarshalFn := blk.UnmarshalFn(root)
 			err := unmarshal(unmarshalFn, bitswapBlk.RawData())
 			if err != nil {
-				// this means verification succeeded in the hasher but failed here
-				// this case should never happen in practice
-				// and if so something is really wrong
-				panic(fmt.Sprintf("unmarshaling duplicate block: %s", err))
+				// this means verification succeeded in the hasher but failed here.
+				// It happens if the original requester's Block was already populated and the hasher
+				// let through different data for the same CID, so don't trust the data
+				duplicatesErr = errors.Join(duplicatesErr, fmt.Errorf("unmarshaling duplicate block: %w", err))
 			}
 			// NOTE: This approach has a downside that we redo deserialization and computationally
 			// expensive computation for as many duplicates. We tried solutions that doesn't have this
@@ -132,6 +134,9 @@ func fetch(
 		}
 	}
 
+	if duplicatesErr != nil {
+		return duplicatesErr
+	}
 	return ctx.Err()
 }
 
